@@ -677,7 +677,7 @@ pub fn conc_engine(seed: u64, flavour: u64) -> ConcCase {
 
 // ------------------------------------------------------------------------------------------ HSC
 
-use crate::hsc::{tuple_lit, Effect, HCase, HOp};
+use crate::hsc::{tuple_lit, Effect, HCase, HOp, SEffect};
 
 fn t64(a: i64, b: i64) -> T {
     vec![V::I64(a), V::I64(b)]
@@ -912,15 +912,23 @@ pub fn c10_case(seed: u64) -> HCase {
     if rw.chance(1, 2) {
         ops.push(HOp::Program { kg: kg.clone(), text: "+pv(X, Y) <- f(X, Y)".into(), effect: Effect::Rule { name: "pv".into(), text: "pv(X, Y) <- f(X, Y)".into() } });
     }
+    // a second knowledge graph with the same relation names and its own value range
+    let two_kgs = rw.chance(1, 2);
+    if two_kgs {
+        ops.push(HOp::Program { kg: kg.clone(), text: ".kg create k2".into(), effect: Effect::CreateKg { name: "k2".into() } });
+        ops.push(HOp::Program { kg: "k2".into(), text: bulk_text("f", &[t64(5001, 5002), t64(5002, 5003)]), effect: Effect::Insert { rel: "f".into(), tuples: vec![t64(5001, 5002), t64(5002, 5003)] } });
+    }
+    let pick_kg = |r: &mut Rng| if two_kgs && r.chance(1, 3) { "k2".to_string() } else { "default".to_string() };
     for s in 0..n_sess {
-        ops.push(HOp::SessCreate { slot: s, kg: kg.clone() });
+        let k = pick_kg(&mut rw);
+        ops.push(HOp::SessCreate { slot: s, kg: k });
     }
     let n = rw.range(6, 16) as usize;
     for _ in 0..n {
         let slot = rw.below(n_sess as u64) as usize;
         let base = 1000 * (slot as i64 + 1);
         let own = |r: &mut Rng| t64(base + r.range(0, 3) as i64, base + r.range(0, 3) as i64);
-        match rw.below(24) {
+        match rw.below(34) {
             0..=4 => {
                 let k = rw.range(1, 2);
                 let tuples: Vec<T> = (0..k).map(|_| own(&mut rw)).collect();
@@ -932,31 +940,64 @@ pub fn c10_case(seed: u64) -> HCase {
             }
             6..=7 => ops.push(HOp::SessAddRule { slot, text: rw.pick(SESSION_RULES).to_string() }),
             8..=13 => ops.push(HOp::SessQuery { slot, text: rw.pick(QUERIES).to_string() }),
-            14 => ops.push(HOp::SessExec { slot, text: ".session clear".into(), effect: Effect::None, clears_session: true }),
+            14 => ops.push(HOp::SessExec { slot, text: ".session clear".into(), effect: Effect::None, clears_session: true, seffect: Default::default() }),
             15 => {
                 // persistent write over a session connection
                 let t = t64(rw.range(1, 5) as i64, rw.range(1, 5) as i64);
-                ops.push(HOp::SessExec { slot, text: format!("+f{}", tuple_lit(&t)), effect: Effect::Insert { rel: "f".into(), tuples: vec![t] }, clears_session: false });
+                ops.push(HOp::SessExec { slot, text: format!("+f{}", tuple_lit(&t)), effect: Effect::Insert { rel: "f".into(), tuples: vec![t] }, clears_session: false, seffect: Default::default() });
             }
             16..=17 => {
                 // stateless client with request-local facts and rules
                 let lt = t64(9000 + rw.range(0, 3) as i64, 9000 + rw.range(0, 3) as i64);
                 let rules = if rw.chance(1, 2) { vec![rw.pick(SESSION_RULES).to_string()] } else { vec![] };
-                ops.push(HOp::RequestLocal { kg: kg.clone(), facts: vec![(rw.pick(&["f", "g"]).to_string(), lt)], rules, query: rw.pick(QUERIES).to_string(), canon_rules: None });
+                let k = pick_kg(&mut rw);
+                ops.push(HOp::RequestLocal { kg: k, facts: vec![(rw.pick(&["f", "g"]).to_string(), lt)], rules, query: rw.pick(QUERIES).to_string(), canon_rules: None });
             }
-            18 => ops.push(HOp::Query { kg: kg.clone(), text: rw.pick(QUERIES).to_string() }),
+            18 => {
+                let k = pick_kg(&mut rw);
+                ops.push(HOp::Query { kg: k, text: rw.pick(QUERIES).to_string() });
+            }
             19 => {
-                let t = t64(rw.range(1, 5) as i64, rw.range(1, 5) as i64);
+                let k = pick_kg(&mut rw);
+                let off = if k == "k2" { 5000 } else { 0 };
+                let t = t64(off + rw.range(1, 5) as i64, off + rw.range(1, 5) as i64);
                 if rw.chance(1, 2) {
-                    ops.push(HOp::Program { kg: kg.clone(), text: format!("+f{}", tuple_lit(&t)), effect: Effect::Insert { rel: "f".into(), tuples: vec![t] } });
+                    ops.push(HOp::Program { kg: k, text: format!("+f{}", tuple_lit(&t)), effect: Effect::Insert { rel: "f".into(), tuples: vec![t] } });
                 } else {
-                    ops.push(HOp::Program { kg: kg.clone(), text: format!("-f{}", tuple_lit(&t)), effect: Effect::Delete { rel: "f".into(), tuples: vec![t] } });
+                    ops.push(HOp::Program { kg: k, text: format!("-f{}", tuple_lit(&t)), effect: Effect::Delete { rel: "f".into(), tuples: vec![t] } });
                 }
             }
             20 => ops.push(HOp::Advance { secs: *rw.pick(&[10u64, 45, 200, 4000]) }),
             21 => ops.push(HOp::Reap),
             22 => ops.push(HOp::SessClose { slot }),
-            _ => ops.push(HOp::SessCreate { slot, kg: kg.clone() }),
+            23 => {
+                let k = pick_kg(&mut rw);
+                ops.push(HOp::SessCreate { slot, kg: k });
+            }
+            24..=25 => {
+                // a fact statement without '+' sent over the session = ephemeral fact of that session
+                let t = own(&mut rw);
+                let rel = rw.pick(&["f", "g"]).to_string();
+                ops.push(HOp::SessExec { slot, text: format!("{rel}{}", tuple_lit(&t)), effect: Effect::None, clears_session: false, seffect: SEffect::AddFact { rel, tuple: t } });
+            }
+            26..=27 => {
+                let text = rw.pick(SESSION_RULES).to_string();
+                ops.push(HOp::SessExec { slot, text: text.clone(), effect: Effect::None, clears_session: false, seffect: SEffect::AddRule { text } });
+            }
+            28 => {
+                let index = rw.range(1, 3) as usize;
+                ops.push(HOp::SessExec { slot, text: format!(".session drop {index}"), effect: Effect::None, clears_session: false, seffect: SEffect::DropRuleIndex { index } });
+            }
+            29 => ops.push(HOp::SessExec { slot, text: ".session drop sv".into(), effect: Effect::None, clears_session: false, seffect: SEffect::DropRuleName { name: "sv".into() } }),
+            30..=31 if two_kgs => {
+                let k = rw.pick(&["k2", "default"]).to_string();
+                ops.push(HOp::SessExec { slot, text: format!(".kg use {k}"), effect: Effect::None, clears_session: false, seffect: SEffect::SwitchKg { kg: k } });
+            }
+            32 => ops.push(HOp::SessAttach { slot, attach: rw.chance(2, 3) }),
+            33 if two_kgs && rw.chance(1, 3) => {
+                ops.push(HOp::Program { kg: kg.clone(), text: ".kg drop k2".into(), effect: Effect::DropKg { name: "k2".into() } });
+            }
+            _ => ops.push(HOp::SessQuery { slot, text: rw.pick(QUERIES).to_string() }),
         }
     }
     let mut cfg = swarm_cfg(&mut rc, true);
@@ -1045,6 +1086,18 @@ pub fn c18_case(seed: u64, flavour: u64) -> HCase {
                 ops.push(HOp::RequestLocal { kg: kg.clone(), facts: vec![], rules, query: q, canon_rules: Some(canon) });
             }
             18 => ops.push(HOp::IncrRead { kg: kg.clone(), rel: "f".into() }),
+            19..=21 if flavour == 1 => {
+                // the knowledge graph's own long-lived engine: bound-argument (magic-set) queries with changing constants,
+                // whole-relation queries, a base relation
+                let c = rw.range(1, 4);
+                let text = match rw.below(6) {
+                    0..=2 => format!("__query__(_c0, Y) <- tc(_c0, Y), _c0 = {c}"),
+                    3 => format!("__query__(X, _c1) <- tc(X, _c1), _c1 = {c}"),
+                    4 => format!("__query__(X, Y) <- {}(X, Y)", rw.pick(&["d0", "d1", "d2", "tc", "f"])),
+                    _ => format!("__query__(_c0, Y) <- d0(_c0, Y), _c0 = {c}"),
+                };
+                ops.push(HOp::KgEngineQuery { kg: kg.clone(), text });
+            }
             _ => ops.push(HOp::Query { kg: kg.clone(), text: rw.pick(P_QUERIES).to_string() }),
         }
         if rw.chance(1, 3) {
@@ -1177,11 +1230,21 @@ pub fn vec_case(seed: u64) -> VCase {
             }
             8..=9 => {
                 let k = rw.range(2, 12) as usize;
-                let mut entries = Vec::new();
+                let mut entries: Vec<(usize, Vec<f32>)> = Vec::new();
                 for _ in 0..k {
-                    next_id += 1;
-                    ids.push(next_id);
-                    entries.push((next_id, gen_vec(&mut rw, dim, &mut pool)));
+                    // mostly new identifiers; sometimes one that occurs earlier in the same batch or is stored already (= update, last one wins)
+                    let id = if !entries.is_empty() && rw.chance(1, 6) {
+                        entries[rw.below(entries.len() as u64) as usize].0
+                    } else if !ids.is_empty() && rw.chance(1, 8) {
+                        *rw.pick(&ids)
+                    } else {
+                        next_id += 1;
+                        next_id
+                    };
+                    if !ids.contains(&id) {
+                        ids.push(id);
+                    }
+                    entries.push((id, gen_vec(&mut rw, dim, &mut pool)));
                 }
                 ops.push(VOp::InsertBatch { entries });
             }
@@ -1190,7 +1253,7 @@ pub fn vec_case(seed: u64) -> VCase {
                 ops.push(VOp::Delete { id });
             }
             13 => ops.push(VOp::Rebuild),
-            14 => ops.push(VOp::SaveLoad),
+            14 => ops.push(if rw.chance(1, 2) { VOp::SaveLoad } else { VOp::ManagerSaveLoad }),
             _ => {
                 let k = *rw.pick(&[1usize, 3, 10, 100]);
                 let ef = *rw.pick(&[None, Some(1usize), Some(k), Some(50), Some(200)]);
@@ -1229,13 +1292,21 @@ pub fn lsh_case(seed: u64) -> LCase {
             let v = rw.pick(&pool).clone();
             let table = rw.below(3) as i64;
             let hp = *rw.pick(&[4usize, 8, 8, 16]);
-            match rw.below(12) {
+            // int8 vectors share dimensions (and so cache entries) with the f32 pool
+            let vi: Vec<i8> = (0..*rw.pick(&dims)).map(|_| *rw.pick(&[0i8, 1, -1, 5, -7, 127, -128, 33])).collect();
+            match rw.below(20) {
                 0..=4 => ops.push(LOp::Bucket { v, table, hp }),
                 5 => ops.push(LOp::Buckets { v, tables: rw.range(1, 3) as usize, hp }),
                 6 => ops.push(LOp::BucketDist { v, table, hp }),
                 7 => ops.push(LOp::Prewarm { table, hp, dim: *rw.pick(&dims) }),
                 8 => ops.push(LOp::Clear),
-                _ => ops.push(LOp::Resize { n: rw.below(4) as usize }),
+                9..=11 => ops.push(LOp::Resize { n: rw.below(4) as usize }),
+                12..=14 => ops.push(LOp::BucketI8 { v: vi, table, hp }),
+                15 => ops.push(LOp::BucketDistI8 { v: vi, table, hp }),
+                16 => ops.push(LOp::MultiProbeI8 { v: vi, table, hp, k: rw.range(1, 5) as usize }),
+                17 => ops.push(LOp::MultiProbe { v, table, hp, k: rw.range(1, 5) as usize }),
+                18 => ops.push(LOp::Prewarm { table, hp: *rw.pick(&[4usize, 8, 16, 24]), dim: *rw.pick(&dims) }),
+                _ => ops.push(LOp::Bucket { v, table, hp: *rw.pick(&[1usize, 2, 24]) }),
             }
         }
         threads.push(ops);
